@@ -734,16 +734,14 @@ def work_docs(task):
         part.count("documents_saved_and_reopened", len(plan["cycles"]))
         part.count(f"documents_{plan['family']}", 1)
         grow = 0
-        for ci, cyc in enumerate(plan["cycles"]):
-            for w in cyc:
-                part.outcome("document:" + w[2][0], 1)
         R, C = plan["shape"]
         dims = [R, C]
         for cyc in plan["cycles"]:
             for w in cyc:
+                part.outcome("document:" + w[2][0], 1)
                 if w[0] >= dims[0] or w[1] >= dims[1]:
                     grow += 1
-                    if (w[0] >= 256 > dims[0] - 1) or (w[1] >= 256 > dims[1] - 1) or w[0] // 256 > (dims[0] - 1) // 256 or w[1] // 256 > (dims[1] - 1) // 256:
+                    if w[0] // 256 > (dims[0] - 1) // 256 or w[1] // 256 > (dims[1] - 1) // 256:
                         part.count("growth_writes_across_a_tile_boundary", 1)
                 dims = [max(dims[0], w[0] + 1), max(dims[1], w[1] + 1)]
         part.count("growth_writes", grow)
